@@ -63,7 +63,19 @@ pub fn dn_values() -> Vec<(String, DnSpec)> {
         ("uc:CN ia5 e-acute".into(), one(Cn, Ia5, "caf\u{e9}")),
         ("uc:CN teletex BEL".into(), one(Cn, Teletex, "a\u{7}")),
         ("uc:CN teletex e-acute".into(), one(Cn, Teletex, "caf\u{e9}")),
+        // (appended) characters that text tools treat specially, at the edges of a value: part of the value like any other
+        ("CN bmp ending in U+0000".into(), one(Cn, Bmp, "ab\u{0}")),
+        ("O universal starting with U+0000 + CN utf8 ending in U+0000".into(), DnSpec(vec![(O, Universal, "\u{0}ab".into()), (Cn, Utf8, "cd\u{0}".into())])),
+        ("CN ia5 ending in a line break".into(), one(Cn, Ia5, "ab\r\n")),
+        ("O printable ending in a space + CN printable starting with a space".into(), DnSpec(vec![(O, Printable, "Org ".into()), (Cn, Printable, " cn".into())])),
     ]
+}
+
+/// Value shapes for the attribute type x string kind x value sweeps: lengths 0..3, letters / digits / mixed, texts that
+/// read like another kind of name, and characters that text tools treat specially (NUL, blank, line break, dot, U+FEFF)
+/// at either edge. A text outside a string kind's alphabet is refused by that kind's constructor and skipped.
+pub fn value_shapes() -> Vec<&'static str> {
+    vec!["", "D", "US", "de", "U1", "12", "USA", "a b", "x@y.z", "1.2.3.4", "example", "ab\u{0}", "\u{0}ab", "\u{0}", "ab ", " ab", "ab\n", "ab\r\n", "ab.", "\u{feff}ab", "ab\u{feff}"]
 }
 
 pub fn san_values() -> Vec<(String, Vec<SanSpec>)> {
@@ -104,6 +116,7 @@ pub fn nc_values() -> Vec<(String, NcSpec)> {
     let cidr4 = CidrSpec { addr: vec![10, 1, 2, 3], prefix: 24, ctor: CidrCtor::AddrPrefix };
     let cidr6 = CidrSpec { addr: ipv6_1(), prefix: 64, ctor: CidrCtor::VxPrefix };
     let dir = DnSpec(vec![(DnTypeSpec::O, StrKind::Utf8, "Org".into())]);
+    let v4 = |prefix: u8| CidrSpec { addr: vec![10, 0, 0, 0], prefix, ctor: CidrCtor::AddrPrefix };
     let p = |s: SubtreeSpec| NcSpec { permitted: vec![s], excluded: vec![] };
     let x = |s: SubtreeSpec| NcSpec { permitted: vec![], excluded: vec![s] };
     vec![
@@ -125,6 +138,13 @@ pub fn nc_values() -> Vec<(String, NcSpec)> {
         ("excluded dns with leading dot + rfc822 with leading dot".into(), NcSpec { permitted: vec![], excluded: vec![SubtreeSpec::Dns(".bad.example.com".into()), SubtreeSpec::Email(".example.com".into())] }),
         ("the same dns subtree permitted and excluded + permitted ip".into(), NcSpec { permitted: vec![SubtreeSpec::Dns("corp.example".into()), SubtreeSpec::Ip(cidr4.clone())], excluded: vec![SubtreeSpec::Dns("corp.example".into())] }),
         ("the same ip subtree permitted and excluded, excluded first in time".into(), NcSpec { permitted: vec![SubtreeSpec::Ip(cidr6.clone())], excluded: vec![SubtreeSpec::Ip(cidr6.clone()), SubtreeSpec::Dns("x.example".into())] }),
+        // two subtrees of one form in one list that are related: nested (either order), equal, equal up to case; one text under two forms
+        ("excluded v4 narrow then broad, same base".into(), NcSpec { permitted: vec![], excluded: vec![SubtreeSpec::Ip(v4(16)), SubtreeSpec::Ip(v4(8))] }),
+        ("permitted v4 broad then narrow, same base".into(), NcSpec { permitted: vec![SubtreeSpec::Ip(v4(8)), SubtreeSpec::Ip(v4(16))], excluded: vec![] }),
+        ("permitted v4 narrow then broad + the same subnet twice excluded".into(), NcSpec { permitted: vec![SubtreeSpec::Ip(v4(24)), SubtreeSpec::Ip(v4(16))], excluded: vec![SubtreeSpec::Ip(cidr4.clone()), SubtreeSpec::Ip(cidr4.clone())] }),
+        ("permitted dns nested, child first + excluded dns equal up to case".into(), NcSpec { permitted: vec![SubtreeSpec::Dns("a.example.com".into()), SubtreeSpec::Dns("example.com".into())], excluded: vec![SubtreeSpec::Dns("bad.example".into()), SubtreeSpec::Dns("BAD.example".into())] }),
+        ("one text permitted as rfc822 and as dns".into(), NcSpec { permitted: vec![SubtreeSpec::Email("example.com".into()), SubtreeSpec::Dns("example.com".into())], excluded: vec![] }),
+        ("one text excluded as dns and as rfc822 + a directoryName".into(), NcSpec { permitted: vec![], excluded: vec![SubtreeSpec::Dns("example.com".into()), SubtreeSpec::Email("example.com".into()), SubtreeSpec::Dir(DnSpec(vec![(DnTypeSpec::O, StrKind::Utf8, "example.com".into())]))] }),
     ]
 }
 
